@@ -192,6 +192,8 @@ void mp::internal::TextReader<Locale>::ReadHeader(NLHeader &header) {
     double tmp;
     if (!ReadOptionalDouble(tmp))
       break;
+    if (!(tmp >= -9223372036854775808.0 && tmp < 9223372036854775808.0))
+      break;                       // does not fit into long (or NaN)
     header.ampl_options[i] = (long)tmp;
     if (header.ampl_options[i] != tmp)
       break;
